@@ -165,6 +165,7 @@ class GlomError(Exception):
         if set(self._tb_lines[0]) <= {' ', '^', '~'}:
             self._tb_lines = self._tb_lines[1:]
         self._scope = scope
+        self._finalized_str = None  # re-finalized (e.g. by an outer glom() call): do not reuse a message rendered from the old scope
 
     def __str__(self):
         if getattr(self, '_finalized_str', None):
